@@ -173,9 +173,20 @@ static int suite_getv_arr(const char* p, const char* api, const char* k, int* n,
   finish("\"ret\":" + std::to_string(r) + ",\"n\":" + std::to_string(*n) + ",\"v\":" + vj + "]", "ret");
   return r;
 }
+// Evaluations do not change the state, and the suite makes millions of them: they are thinned logarithmically
+// (all of the first 100, then a pseudo-random 1 in 10 up to 1000, 1 in 100 up to 10^4, ...); every other call is logged.
+static unsigned long g_evals = 0;
+static bool keep_eval()
+{
+  unsigned long n = ++g_evals, stride = 1;
+  for (unsigned long lim = 100; n > lim && stride < 1000000; lim *= 10) stride *= 10;
+  unsigned long h = n * 0x9E3779B97F4A7C15ul; h ^= h >> 29; h *= 0xBF58476D1CE4E5B9ul; h ^= h >> 32;
+  return h % stride == 0;
+}
 template <typename Scalar, typename F>
 static Scalar suite_eval(const char* p, const char* api, const char* fn, const char* sig, const std::vector<long double>& sa, int di, F real)
 {
+  if (g_depth == 0 && !keep_eval()) { ++g_depth; try { Scalar r = real(); --g_depth; return r; } catch (...) { --g_depth; throw; } }
   SuiteScope sc; SUITE_TOP(sc)
   std::vector<std::string> f{"eval", p, api, fn, sig};
   size_t k = 0;
